@@ -20,7 +20,7 @@ W = 128
 
 
 def jobs(tier, seed):
-    rmax, amax = (3, 2) if tier == 'quick' else (5, 3)
+    rmax, amax = (3, 2) if tier == 'quick' else (4, 2)      # a job covers all 2^(r+a) explicit/identifier-only patterns; paths grow factorially with the number of symbolic numbers
     js = []
     for r in range(0, rmax + 1):
         for a in range(-1, amax + 1):    # -1: no extension marker
